@@ -80,7 +80,7 @@ def run_one(sid, tier, budget):
         do = sh(f"cd {work} && {env} PYTHONPATH={work}/orig/src /venv/bin/python {d}/demo.py")
         meta["demo_exit_changed"] = dm.returncode
         meta["demo_exit_pristine"] = do.returncode
-        quiet = sid.startswith(("q", "f", "g", "i", "k", "m", "o"))      # q*: refactorings; f*: legitimate changes found by false-alarm hunters
+        quiet = sid.startswith(("q", "f", "g", "i", "k", "m", "o", "r"))      # q*: refactorings; f*: legitimate changes found by false-alarm hunters
         meta["kind"] = "behaviour-preserving refactoring (the check must stay QUIET)" if quiet else "seeded bug"
         if quiet:
             meta["changes_not_promised"] = agent.get("changes_not_promised")
@@ -175,7 +175,7 @@ def main():
                          "wall_s": m["check"].get("wall_s"), "verif_head": sh(f"git -C {VERIF} rev-parse --short HEAD").stdout.strip()})
         m["history"] = hist[-12:]
         json.dump(m, open(p, "w"), indent=1)
-        verdict = ("QUIET" if m.get("quiet_ok") else "FALSE-ALARM?") if m["id"].startswith(("q", "f", "g", "i", "k", "m", "o")) else ("CAUGHT" if m.get("caught") else "MISSED")
+        verdict = ("QUIET" if m.get("quiet_ok") else "FALSE-ALARM?") if m["id"].startswith(("q", "f", "g", "i", "k", "m", "o", "r")) else ("CAUGHT" if m.get("caught") else "MISSED")
         print(m["id"], "confirmed" if m.get("confirmed") else "NOT-CONFIRMED", verdict,
               m.get("check", {}).get("signature", ""), m.get("check", {}).get("wall_s"))
     allm = []
@@ -187,7 +187,7 @@ def main():
         f.write("# Seeded changes (" + ("written by independent sub-agents" if SEEDED_DIR == "seeded" else "written by WHITE-BOX adversary agents that could read /verif and run the checks") + "): confirmation and detection\n\n")
         f.write("| id | property | confirmed (suite 114/11, demo 1/0) | latest check | signature | what it needs |\n|---|---|---|---|---|---|\n")
         for m in allm:
-            verdict = ("QUIET" if m.get("quiet_ok") else "FALSE-ALARM?") if m["id"].startswith(("q", "f", "g", "i", "k", "m", "o")) else ("CAUGHT" if m.get("caught") else "MISSED")
+            verdict = ("QUIET" if m.get("quiet_ok") else "FALSE-ALARM?") if m["id"].startswith(("q", "f", "g", "i", "k", "m", "o", "r")) else ("CAUGHT" if m.get("caught") else "MISSED")
             f.write(f"| {m['id']} | {m['property']} | {m.get('confirmed')} | {verdict} "
                     f"({m.get('check', {}).get('wall_s')} s) | {m.get('check', {}).get('signature', '')} | {(m.get('needs') or '')[:300]} |\n")
 
